@@ -8,6 +8,7 @@ real code produced over the product of transport configurations, plus transport-
 """
 import json
 import os
+import re
 import time
 from concurrent.futures import ProcessPoolExecutor
 from multiprocessing import get_context
@@ -52,9 +53,9 @@ META = {
 }
 
 INVS = ["NothingAfterEnd", "ExchangeOnePerInput", "ProducerOnePerTick", "LogOrderPreserved", "DataInOrder",
-        "HeaderIffDeclared", "OneEnding", "DeviationsOnlyDropLogs", "ProgramSmall"]
-QUICK_SLICES = {"RichSteps": 1, "SmallSteps": 2, "MultiCalls": 2, "MaxTicks": 2}
-THOROUGH_SLICES = {"RichSteps": 2, "SmallSteps": 3, "MultiCalls": 3, "MaxTicks": 2}
+        "HeaderIffDeclared", "OneEnding", "DeviationsOnlyDropLogs", "ProgramSmall", "PackingCoverage"]
+QUICK_SLICES = {"RichSteps": 1, "SmallSteps": 2, "MultiCalls": 2, "LongEmits": 6, "MaxTicks": 2}
+THOROUGH_SLICES = {"RichSteps": 2, "SmallSteps": 3, "MultiCalls": 3, "LongEmits": 6, "MaxTicks": 2}
 SOCKETS = ("pipe", "unix", "tcp", "shm")
 NAMED = ("LogsBeforeError", "ExchangeTrailingLogs", "DataBeforeError", "HeaderBeforeError")   # named deviations of the spec
 CLAUSE_DOC = {
@@ -100,10 +101,29 @@ def _with_knobs(base: str, space: dict, rng) -> str:
     return join_cfg(base, knobs)
 
 
+def _landmark_cfgs(case: dict, nsteps: list, i: int, space: dict, rng, every: bool) -> list[str]:
+    """Packing dimension (Semantics!Packings): for a single producer call, one cap per landmark j and one just above it,
+    so that every way of packing steps -- and the terminal event -- into /init and continuation turns occurs."""
+    if len(case["calls"]) != 1 or not nsteps or nsteps[0] < 2:
+        return []
+    comps = sorted(space["comps"])
+    out = []
+    for j in range(1, nsteps[0]):
+        if not every and (i + j) % 2:
+            continue
+        for plus in ("", "+"):
+            ext = "low" if (i + j) % 5 == 0 else "off"
+            out.append(_with_knobs(f"http:lm{j}{plus}:{comps[(i + j + (plus == '+')) % len(comps)]}:{ext}", space, rng))
+    return out
+
+
 def _family(cfg: str) -> dict:
     base, _, knobs = cfg.partition("|")
     if base.startswith("http:"):
         _, cap, comp, ext = base.split(":")
+        if cap.startswith("lm"):              # packing landmark: attribute by packing, class "landmark"
+            knobs = ",".join(filter(None, [f"packing={cap[2:]}", knobs]))
+            cap = "landmark"
         return {"family": "http", "transport": "http", "cap": cap, "comp": comp, "ext": ext, "knobs": knobs}
     return {"family": "subprocess" if base in ("subprocess", "pool", "pool-reuse") else "socket", "transport": base,
             "cap": "-", "comp": "-", "ext": "-", "knobs": knobs}
@@ -221,11 +241,18 @@ def _run(ctx: Ctx, pools: list) -> None:
         total = len(cases)
         cases.sort(key=lambda c: jhash(c["case"]))
         if ctx.quick:
-            chosen = _stratified(cases, ctx.rng, 320)
-            jobs = [{"case": c["case"], "xs": _xs(ctx.rng, len(c["case"]["calls"])), "cfgs": _quick_cfgs(i, space, ctx.rng)}
+            is_long = lambda c: max(c.get("nsteps") or [0]) >= 5      # noqa: E731 - the long slice (room for every packing)
+            chosen = _stratified([c for c in cases if is_long(c)], ctx.rng, 36) + \
+                _stratified([c for c in cases if not is_long(c)], ctx.rng, 300)
+            jobs = [{"case": c["case"], "xs": _xs(ctx.rng, len(c["case"]["calls"])),
+                     "cfgs": _quick_cfgs(i, space, ctx.rng) + _landmark_cfgs(c["case"], c.get("nsteps"), i, space, ctx.rng,
+                                                                               every=is_long(c))}
                     for i, c in enumerate(chosen)]
         else:
-            cases = _stratified(cases, ctx.rng, len(cases))      # whatever fits the time budget is spread over all strata
+            is_long = lambda c: max(c.get("nsteps") or [0]) >= 5      # noqa: E731
+            longs = [c for c in cases if is_long(c)]
+            # whatever fits the time budget is spread over all strata; a share of the long slice goes first
+            cases = _stratified(longs, ctx.rng, 90) + _stratified([c for c in cases if not is_long(c)] , ctx.rng, len(cases))
             allcfg = list(SOCKETS) + _http_configs(space)
             jobs = []
             nsub = 0
@@ -236,6 +263,7 @@ def _run(ctx: Ctx, pools: list) -> None:
                     bases.append("subprocess" if nsub % 2 == 0 else "pool")
                     nsub += 1
                 cfgs = [b if (b == "pipe" and i % 2 == 0) else _with_knobs(b, space, ctx.rng) for b in bases]
+                cfgs += _landmark_cfgs(c["case"], c.get("nsteps"), i, space, ctx.rng, every=True)
                 jobs.append({"case": c["case"], "xs": _xs(ctx.rng, len(c["case"]["calls"])), "cfgs": cfgs})
 
     # ---- spec -> code: execute every chosen behaviour over its configurations (worker processes)
@@ -263,14 +291,28 @@ def _run(ctx: Ctx, pools: list) -> None:
 
         from concurrent.futures import FIRST_COMPLETED, wait
         submit_some()
+        grace = 150.0                      # a behaviour still running this long after the budget ended is abandoned
+        worker_failures: list[str] = []
         while futs:
-            done, _ = wait(list(futs), return_when=FIRST_COMPLETED)
+            done, _ = wait(list(futs), timeout=5.0, return_when=FIRST_COMPLETED)
             for f in done:
                 i = futs.pop(f)
                 pending -= 1
-                results[i] = f.result()
+                try:
+                    results[i] = f.result()
+                except BaseException as e:  # noqa: BLE001 - a worker that lost its process or its deadline: not executed
+                    worker_failures.append(repr(e)[:200])
             submit_some()
+            if futs and time.time() > deadline + grace:
+                ctx.extra["behaviours_abandoned_after_budget"] = len(futs)
+                for proc in list(getattr(ex, "_processes", {}).values()):
+                    proc.kill()
+                ex.shutdown(wait=False, cancel_futures=True)
+                break
     executed = [i for i, r in enumerate(results) if r is not None]
+    ctx.extra["worker_failures"] = worker_failures[:5]
+    if len(worker_failures) > max(3, len(executed) // 20):
+        raise MachineryError(f"C01: {len(worker_failures)} behaviours could not be executed: {worker_failures[:3]}")
     phases = {"enumerate+setup": round(t_exec - t_start, 1), "execute": round(time.time() - t_exec, 1)}
     ctx.extra["behaviours_executed"] = len(executed)
     ctx.extra["behaviours_total_in_bounds"] = total
@@ -282,6 +324,7 @@ def _run(ctx: Ctx, pools: list) -> None:
     records, meta = [], []          # records[r] = {case, obs: [...]}, meta[r][k] = {job, cfgs, synthetic}
     cfg_seen: dict[str, int] = {}
     knob_seen: dict[str, int] = {}
+    pack_seen: dict[str, int] = {}
     enc_seen: dict[str, set] = {}
     ext_used = 0
     synth = 0
@@ -293,12 +336,18 @@ def _run(ctx: Ctx, pools: list) -> None:
         groups: dict[str, list[str]] = {}
         for cfg, r in res.items():
             cbase, _, ctail = cfg.partition("|")
-            cfg_seen[cbase] = cfg_seen.get(cbase, 0) + 1
+            ckey = re.sub(r":lm\d+\+?:", ":landmark:", cbase)
+            cfg_seen[ckey] = cfg_seen.get(ckey, 0) + 1
             for kv in filter(None, ctail.split(",")):
                 knob_seen[kv] = knob_seen.get(kv, 0) + 1
             for e in r.get("encodings", []):
                 enc_seen.setdefault(cbase.split(":")[2] if cbase.startswith("http") else cbase, set()).add(e)
             ext_used += r.get("externalized", 0)
+            if r.get("packing"):
+                last = r["packing"][-1]
+                cls = ("init" if len(r["packing"]) == 1 else "cont") + ("-with-data" if last["data"] else "-alone") + \
+                      (":error" if last["err"] else ":end")
+                pack_seen[cls] = pack_seen.get(cls, 0) + 1
             ctx.case([key, cfg], sample={"script": job["case"]["calls"], "xs": job["xs"], "configuration": cfg,
                                          "history": [{k: c[k] for k in ("res", "hdr", "data", "logs", "err", "stopped")}
                                                      for c in r["calls"]]} if (i % 97 == 0 and (cbase == "pipe" or cbase.startswith("http:tiny"))) else None)
@@ -329,6 +378,11 @@ def _run(ctx: Ctx, pools: list) -> None:
     ctx.extra["distinct_histories_judged"] = len(observations) - synth
     ctx.extra["configurations_run"] = cfg_seen
     ctx.extra["non_default_knob_values_run"] = knob_seen
+    ctx.extra["terminal_event_packings_reached"] = pack_seen      # where the error / end of stream sat in the landmark runs
+    if not getattr(ctx, "replay_record", None):
+        for need in ("cont-with-data:error", "cont-alone:error", "init-with-data:error", "cont-with-data:end"):
+            if not pack_seen.get(need):
+                raise MachineryError(f"C01: the packing '{need}' was never reached by the landmark caps (got {pack_seen})")
     ctx.extra["response_encodings_seen"] = {k: sorted(v) for k, v in enc_seen.items()}
     ctx.extra["batches_externalized"] = ext_used
     counts: dict[str, int] = {}
